@@ -321,7 +321,7 @@ def run(ctx):
 
     def gen(cfg, cls, label, args=(), workers=None, timeout=3000):
         res = ctx.tlc("MC_Query", cfg, workers=workers or max(2, W // 2), timeout=timeout, label=label,
-                      env={"GEN_CLASS": cls}, args=list(args))
+                      env={"GEN_CLASS": cls}, args=list(args), heap="3g")
         cases = [norm_case(c) for c in res.json_items("CASE")]
         univ = res.json_items("UNIV")
         chars = res.json_items("CHARS")
@@ -349,13 +349,13 @@ def run(ctx):
     ntraces = ctx.pick(1200, 16000)
     simw = 8 if not dev_workers else min(8, dev_workers)
     jobs = {
+        "harness": lambda: ctx.build_harness("src", HARNESS_FILES, shared=["chars"]),
+        "fzf": lambda: ctx.build_fzf(),
         "mc": do_mc,
         "doc": lambda: gen("Gen_Query_doc.cfg", "doc", "gen-doc", workers=simw,
                            args=["-simulate", "num=%d" % (ntraces // simw), "-depth", "4", "-seed", seed]),
         "basic": lambda: gen("Gen_Query_basic_quick.cfg" if ctx.quick else "Gen_Query_basic.cfg", "basic", "gen-basic"),
         "corner": lambda: gen("Gen_Query_corner_quick.cfg" if ctx.quick else "Gen_Query_corner.cfg", "corner", "gen-corner"),
-        "harness": lambda: ctx.build_harness("src", HARNESS_FILES, shared=["chars"]),
-        "fzf": lambda: ctx.build_fzf(),
     }
     if not ctx.quick:
         jobs["doc1"] = lambda: gen("Gen_Query_doc1.cfg", "doc", "gen-doc1")
